@@ -274,8 +274,11 @@ func Directed(L uint64, marks []uint64, rng *rand.Rand, n int) []Req {
 type Answer struct {
 	Data     []byte
 	Err      error
-	Resumed  bool // the stream delivered bytes again after reporting io.EOF
-	WholeObj bool // Data is a whole encoded object (ReadObjectParts with a full range)
+	Resumed  bool   // the stream delivered bytes again after reporting io.EOF
+	WholeObj bool   // Data is a whole encoded object (ReadObjectParts with a full range)
+	Partial  bool   // the consumer closed the stream before its end: Data only has to be a prefix of the slice
+	Sched    string // "" (one request at a time), "overlapped" or "concurrent" (c11_overlap.go)
+	Trace    any    // for overlapped/concurrent answers: the calls and the schedule (replay)
 }
 
 func (a Answer) Class() string {
@@ -382,9 +385,16 @@ func Judge(r *verifkit.Run, layer, api string, o *Obj, req Req, a Answer) bool {
 	r.Count("answers_"+a.Class(), 1)
 	r.Count("requests_"+ModeName(req.Mode), 1)
 	key := func(kind string) string {
+		if a.Sched != "" { // the class is the overlap of answers, not the request shape
+			return fmt.Sprintf("C11|%s.%s|%s|fmt=%s|%s|%s", layer, api, kind, o.Format, LenClass(o), a.Sched)
+		}
 		return fmt.Sprintf("C11|%s.%s|%s|%s|fmt=%s|%s|%s", layer, api, kind, ModeName(req.Mode), o.Format, LenClass(o), ReqClass(req, L))
 	}
 	rep := map[string]any{"layer": layer, "api": api, "request": req.String(), "payload_len": L, "object_len": len(o.Bin), "payload_start": o.PStart, "format": o.Format, "addr": o.Addr.String()}
+	if a.Sched != "" {
+		rep["answers_in_flight"] = a.Sched
+		rep["schedule"] = a.Trace
+	}
 	bad := func(kind, what string) bool {
 		k := key(kind)
 		switch kind { // kinds that name a mechanism: the key does not enumerate request shapes
@@ -392,6 +402,12 @@ func Judge(r *verifkit.Run, layer, api string, o *Obj, req Req, a Answer) bool {
 			k = fmt.Sprintf("C11|%s.%s|premature-eof|fmt=%s", layer, api, o.Format)
 		case "error-for-satisfiable":
 			k = fmt.Sprintf("C11|%s.%s|error-for-satisfiable|%s|fmt=%s", layer, api, ErrSig(a.Err), o.Format)
+		}
+		if a.Sched != "" {
+			if kind == "premature-eof" || kind == "error-for-satisfiable" {
+				k += "|" + a.Sched
+			}
+			what += " [" + a.Sched + " with other range reads]"
 		}
 		r.Violation(k, fmt.Sprintf("%s.%s %s on a %d-byte payload (%s, object %d bytes, payload starts at %d): %s", layer, api, req, L, o.Format, len(o.Bin), o.PStart, what), rep)
 		return false
@@ -429,6 +445,9 @@ func Judge(r *verifkit.Run, layer, api string, o *Obj, req Req, a Answer) bool {
 	}
 	if bytes.Equal(a.Data, exp) {
 		return true
+	}
+	if a.Partial && len(a.Data) <= len(exp) && bytes.Equal(a.Data, exp[:len(a.Data)]) {
+		return true // abandoned by the consumer: what was read is the beginning of the slice
 	}
 	shape := "wrong-bytes"
 	switch {
